@@ -42,9 +42,11 @@ def gen_column(R, n, style=None):
     return style, vals
 
 
-def gen_table(R, max_rows=160, ncols=None, params="random"):
+def gen_table(R, max_rows=160, ncols=None, params="random", rows=None):
     from syndiffix.common import AnonymizationParams, BucketizationParams, SuppressionParams, FlatteningInterval
     n = R.choice([60, 150, max_rows, max_rows]) if params == "default" else R.choice([1, 2, 3, 7, 20, 45, 90, max_rows, max_rows])
+    if rows:
+        n = R.choice(rows)
     ncols = ncols or R.choice([1, 2, 2, 3, 3, 4])
     cols, styles = [], []
     for _ in range(ncols):
@@ -275,14 +277,14 @@ def buckets_real(F, comb, seed=0):
     return bs, stream
 
 
-def stream_harvest(ctx, built, ntables, oracle=None, max_rows=160, maxdim=3, params="random", name="S-harv"):
+def stream_harvest(ctx, built, ntables, oracle=None, max_rows=160, maxdim=3, params="random", name="S-harv", ncols=None, only_full=False, rows=None):
     """harvest of every 1..3-column tree: bucket lists (ranges + counts, in order) bit-exact; oracle(table, forest, comb, root, buckets)."""
     R = ctx.rng
     S = ctx.stream(name, "harvest(tree, rng) for every combination of 1..3 columns of random tables (see S-tree), unsafe RNG recorded and replayed "
                    "into the model; compared: bucket list in order (ranges bit-exact, counts), number of RNG draws; non-trivial = >= 2 buckets, "
                    "distinct by table and combination")
     for ti in range(ntables):
-        t = gen_table(R, max_rows=max_rows, params=params)
+        t = gen_table(R, max_rows=max_rows, params=params, ncols=ncols, rows=rows)
         try:
             F, kind = build_real(t)
         except RecursionError:
@@ -290,6 +292,8 @@ def stream_harvest(ctx, built, ntables, oracle=None, max_rows=160, maxdim=3, par
         lines = forest_lines(t, F, kind)
         exp_blocks = [None]
         combs = list(all_combs(len(t["names"]), maxdim))
+        if only_full:
+            combs = [c for c in combs if len(c) == min(maxdim, len(t["names"]))]
         for comb in combs:
             try:
                 bs, stream = buckets_real(F, comb)
